@@ -486,7 +486,7 @@ GAP_APIS = ("accept", "recv", "send")     # the calls that park on a Condition u
 class Cell:
     """one fresh connection on which one blocking API (on side X) meets one ending"""
 
-    def __init__(self, api, role="std"):
+    def __init__(self, api, role="std", pre="fresh"):
         """role 'std': the API's usual side (accept on the server, everything else on the client);
         'swap': the other side (accept on the CLIENT as after request_port_forward, open_channel /
         global_request / renegotiate / channel I/O on the SERVER side)."""
@@ -497,6 +497,7 @@ class Cell:
         self.paramiko = paramiko
         self.api = api
         self.role = role
+        self.pre = pre
         self.hold = threading.Event()          # released in cleanup
         self.extra_threads = []
         a, b = LoopSocket(), LoopSocket()
@@ -557,6 +558,22 @@ class Cell:
                 raise RuntimeError("server did not accept the session channel")
             # self.chan is the end of the channel that lives on side X
             self.chan, self.schan = (cchan, schan) if self.x is self.tc else (schan, cchan)
+            self.apply_pre()
+
+    def apply_pre(self):
+        """channel pre-state on side X before the call: EOF received from the peer, EOF sent, both"""
+        def wait_for(pred, what):
+            end = time.time() + 10
+            while not pred() and time.time() < end:
+                time.sleep(0.01)
+            if not pred():
+                raise RuntimeError("pre-state not reached: " + what)
+        if self.pre in ("eof-recv", "both"):
+            self.schan.shutdown_write()
+            wait_for(lambda: self.chan.eof_received, "EOF from the peer")
+        if self.pre in ("eof-sent", "both"):
+            self.chan.shutdown_write()
+            wait_for(lambda: self.schan.eof_received, "our EOF at the peer")
 
     # -- making the call block -----------------------------------------------------------------
     def prepare_block(self):
@@ -580,7 +597,8 @@ class Cell:
         except BaseException:
             pass
 
-    def call(self, tmo):
+    def call(self, tmo, variant=0):
+        """variant 1: a second thread parked on the same object through the API's sibling entry point"""
         api = self.api
         if api == "start_client":
             return self.tc.start_client()
@@ -605,6 +623,8 @@ class Cell:
             return self.chan.recv(16)
         if api == "send":
             self.chan.settimeout(USER_TIMEOUT if tmo else None)
+            if variant:
+                return self.chan.sendall_stderr(b"y" * 50000)
             return self.chan.sendall(b"x" * 50000)      # window is 32768 and nobody reads
         if api == "chan_request":
             return self.chan.exec_command("true")
@@ -715,22 +735,33 @@ SWAP_APIS = ("accept", "open_channel", "global_request", "renegotiate_keys", "se
              "recv", "send", "exit_status")      # exist on both sides of a connection
 
 
-def run_cell(api, ending, phase, tmo, role="std"):
-    """Returns (outcome, detail): outcome 'returned' | 'raised' | 'hang' | 'setup-failed'."""
+MULTI_APIS = ("accept", "recv", "send", "exit_status", "open_channel", "global_request", "send_user_message")
+CHAN_APIS = ("recv", "send", "exit_status", "chan_request")
+PRES = ("fresh", "eof-recv", "eof-sent", "both")
+
+
+def run_cell(api, ending, phase, tmo, role="std", pre="fresh"):
+    """Returns (outcome, detail): outcome 'returned' | 'raised' | 'hang' | 'setup-failed'.
+    In the 'before' and 'during' phases the APIs of MULTI_APIS are parked by TWO threads at once on the
+    same object (send: sendall + sendall_stderr); all of them must come back."""
     try:
-        cell = Cell(api, role)
+        cell = Cell(api, role, pre)
     except Exception as e:   # noqa
         return "setup-failed", repr(e)
     try:
-        box = {}
+        nwait = 2 if (phase in ("before", "during") and api in MULTI_APIS) else 1
+        boxes = [{} for _ in range(nwait)]
 
-        def target():
+        def target(i):
             try:
-                box["v"] = cell.call(tmo)
+                boxes[i]["v"] = cell.call(tmo, variant=i)
             except BaseException as e:   # noqa
-                box["e"] = e
+                boxes[i]["e"] = e
 
-        th = threading.Thread(target=target, daemon=True)
+        ths = [threading.Thread(target=target, args=(i,), daemon=True) for i in range(nwait)]
+        th = ths[0]
+        box = boxes[0]
+        blocked = ""
         if phase == "gap":
             done = threading.Event()
 
@@ -763,20 +794,33 @@ def run_cell(api, ending, phase, tmo, role="std"):
             th.start()
         else:
             cell.prepare_block()
-            th.start()
+            for i, t in enumerate(ths):
+                t.start()
+                if i == 0 and nwait > 1 and phase == "before":
+                    time.sleep(0.15)    # e.g. the first sender exhausts the window, the second finds it at 0
             if phase == "before":
-                time.sleep(0.3)         # let it reach its wait
-                if not th.is_alive():
-                    return "setup-failed", "call did not block: %r" % (box,)
+                time.sleep(0.3)         # let them reach their wait
+                alive = sum(t.is_alive() for t in ths)
+                if alive == 0:
+                    if pre == "fresh":
+                        return "setup-failed", "call did not block: %r" % (boxes,)
+                    blocked = "did-not-block:"   # e.g. recv after the peer's EOF: returns at once, fine
+                else:
+                    blocked = "%d-parked:" % alive
             cell.end(ending)
         if phase != "gap":
-            th.join(WATCH)
-        if th.is_alive():
-            return "hang", "still blocked %ss after %s" % (WATCH, ending)
+            end = time.time() + WATCH
+            for t in ths:
+                t.join(max(0.0, end - time.time()))
+        alive = sum(t.is_alive() for t in ths)
+        if alive:
+            return "hang", "%d of %d thread(s) still blocked %ss after %s (channel pre-state %s)" % (
+                alive, nwait, WATCH, ending, pre)
         if "e" in box:
-            return "raised", type(box["e"]).__name__
+            return "raised", blocked + type(box["e"]).__name__
         v = box.get("v")
-        return "returned", (type(v).__name__ if not isinstance(v, (bytes, int, type(None))) else repr(v)[:20])
+        return "returned", blocked + (type(v).__name__ if not isinstance(v, (bytes, int, type(None)))
+                                      else repr(v)[:20])
     finally:
         cell.cleanup()
 
@@ -836,6 +880,9 @@ def all_cells():
                 cells.append((api, ending, "gap", False))
     # both roles: the same API on the other side of the connection
     cells = [c + ("std",) for c in cells] + [c + ("swap",) for c in cells if c[0] in SWAP_APIS]
+    # channel pre-states: the peer's EOF already received, our EOF already sent, both
+    cells = [c + ("fresh",) for c in cells] + \
+            [c + (pre,) for c in cells if c[0] in CHAN_APIS and c[2] != "gap" for pre in PRES[1:]]
     return cells
 
 
@@ -853,11 +900,18 @@ def part_matrix(ctx):
         seen = set()
         phase_count = {}
         for c in rest:
-            if (c[0], c[1], c[4]) not in seen and applicable(c[0], c[1], c[2]):
+            if c[5] == "fresh" and (c[0], c[1], c[4]) not in seen and applicable(c[0], c[1], c[2]):
                 seen.add((c[0], c[1], c[4]))
                 pick.append(c)
+        seen_pre = set()
+        for c in rest:                       # every channel API x pre-state: blocked before AND called after
+            if c[5] != "fresh" and c[4] == "std" and not c[3] and c[2] in ("before", "after") \
+                    and (c[0], c[5], c[2]) not in seen_pre:
+                seen_pre.add((c[0], c[5], c[2]))
+                pick.append(c)
         for c in rest:                       # ... and every API (in its usual role) in every phase
-            if c not in pick and c[4] == "std" and (c[0], c[2]) not in {(q[0], q[2]) for q in pick if q[4] == "std"} \
+            if c not in pick and c[4] == "std" and c[5] == "fresh" \
+                    and (c[0], c[2]) not in {(q[0], q[2]) for q in pick if q[4] == "std" and q[5] == "fresh"} \
                     and applicable(c[0], c[1], c[2]):
                 pick.append(c)
         cells = pick
@@ -929,13 +983,14 @@ def part_matrix(ctx):
     keys = []
     outcomes = {}
     for c in sorted(results):
-        api, ending, phase, tmo, role = c
+        api, ending, phase, tmo, role, pre = c
         out, detail = results[c]
         if out == "n/a":
             continue
         side = side_of(api, role)
         tag = api if role == "std" else "%s@%s" % (api, side)
-        ctx.count(c, kind="matrix-%s-%s%s" % (ending, phase, "" if role == "std" else "-otherside"))
+        ctx.count(c, kind="matrix-%s-%s%s%s" % (ending, phase, "" if role == "std" else "-otherside",
+                                                 "" if pre == "fresh" else "-" + pre))
         outcomes.setdefault("%s/%s" % (out, detail), 0)
         outcomes["%s/%s" % (out, detail)] += 1
         if out == "setup-failed":
@@ -950,7 +1005,8 @@ def part_matrix(ctx):
                      "%s on the %s transport is still blocked %ss after the connection ended by %s" % (
                          api, side, WATCH, ending),
                      case={"api": api, "ending": ending, "phase": phase, "timeout": tmo, "role": role,
-                           "side": side},
+                           "side": side, "channel_pre_state": pre,
+                           "threads_parked": 2 if (phase in ("before", "during") and api in MULTI_APIS) else 1},
                      expected="returns or raises promptly", observed=detail)
         # a call that outlives the connection must not pretend success
         if returned and api in ("open_channel", "auth", "chan_request", "start_client", "start_server",
@@ -963,7 +1019,7 @@ def part_matrix(ctx):
     bad = safe_mismatches(ctx, "run_cell", "(Z * Z * bool * Z)", model_cases)
     for i in bad[:5]:
         ctx.disagree("cell outcome differs from the wake-graph model's prediction",
-                     case=dict(zip(("api", "ending", "phase", "timeout", "role"), keys[i])), model="returns",
+                     case=dict(zip(("api", "ending", "phase", "timeout", "role", "pre"), keys[i])), model="returns",
                      impl=results[keys[i]])
     for c in keys[:2]:
         ctx.sample({"matrix": {"cell": c, "impl": results[c], "model": "returns"}})
@@ -980,7 +1036,11 @@ def run(ctx):
                 "real short-lived subprocesses; C: matrix of blocking API x {peer DISCONNECT, socket EOF, damaged "
                 "packet / bad banner, local close()} x {blocked before, racing, called after} x {no timeout, caller "
                 "timeout}, plus for accept/recv/send the forced interleaving 'the ending runs to completion between "
-                "the call's entry and its acquiring the condition's lock' (instance lock wrapped) on fresh in-process Transport pairs (quick: every API x ending and API x phase once + all accept and forced-interleaving cells; "
+                "the call's entry and its acquiring the condition's lock' (instance lock wrapped); in the before/racing phases accept/recv/send/"
+                "exit_status/open_channel/global_request/send_ignore are parked by TWO threads at once on the same "
+                "object (send: sendall + sendall_stderr) and all must return; every cell also on the other side of "
+                "the connection where the API exists there; channel APIs additionally from the channel pre-states "
+                "{peer EOF received, EOF sent, both} (blocked before and called after) on fresh in-process Transport pairs (quick: every API x ending and API x phase once + all accept and forced-interleaving cells; "
                 "thorough: all cells), watchdog %ss, one retry before a hang is believed.  A case is non-trivial "
                 "when distinct and its script / cell is not empty." % WATCH)
     ctx.trusted += ["translator gen/c13.py (AST -> wake graph), fail-closed on unrecognised statements",
@@ -1001,7 +1061,8 @@ def replay(ctx, rep):
     case = rep.get("case") or {}
     if "api" in case and "phase" in case:
         ctx.prove()
-        c = (case["api"], case["ending"], case["phase"], bool(case.get("timeout")), case.get("role", "std"))
+        c = (case["api"], case["ending"], case["phase"], bool(case.get("timeout")), case.get("role", "std"),
+             case.get("channel_pre_state", "fresh"))
         r = run_cell(*c)
         if r[0] == "hang":
             r = run_cell(*c)
